@@ -148,6 +148,7 @@ SIMPLE = [
     S("lambda-walrus", "{n1} = (lambda: ({p} := E({e1}, 5)))()", cur="n1", special=True),
     S("lambda-yield", "{n1} = list((lambda: (yield E({e1}, {p})))())", cur=None, special=True),
     S("mangled-read", "{n1} = E({e1}, K.__hid + {p})", cur="n1", flags=["inclass"], special=True),
+    S("mangled-read-nested", "{n1} = E({e1}, K.__hid + {p})", cur="n1", flags=["inclass", "nested"], special=True),
     S("weird-eq", "{n1} = NOEQ(E({e1}, {p}))", special=True),
     S("return-yield", "return (yield E({e1}, {p}))", gen=True, special=True),
     S("arg-yield", "E({e1}, (yield E({e2}, {p})))", gen=True, special=True),
@@ -199,7 +200,7 @@ CORE3 = frozenset({"assign", "chain", "aug", "unpack-tuple", "unpack-star", "att
                    "yield-recv", "if", "if-else", "for", "for-else", "while", "try-except", "try-finally", "with",
                    "break", "continue", "del"})
 # the `odd` program set: every program contains at least one of ODD, the rest comes from ODD_BASE
-ODD = frozenset({"none-global-read", "weird-eq", "multiline-str", "mangled-read", "sub-index-walrus", "default-walrus",
+ODD = frozenset({"none-global-read", "weird-eq", "multiline-str", "mangled-read", "mangled-read-nested", "sub-index-walrus", "default-walrus",
                  "class-base-walrus", "lambda-walrus", "lambda-yield", "with-two-dep", "return-yield", "arg-yield", "assert-yield", "sub-index-yield",
                  "default-yield", "ann-yield", "attr-yield", "for-list-target", "with-list-target", "for-yield-iter",
                  "while-yield-test", "if-yield-test", "with-yield-item"})
@@ -302,6 +303,10 @@ def render(lines, flags, tail=True, sig=None):
         return "def make(c):\n    kk = 3\n    kt = int\n" + "\n".join("    " + ln for ln in fn) + "\n" + share + "    return f\nf = make(10)\n"
     if "inclass" in flags:
         # f is defined in a class body: identifiers of the form __name inside it are mangled by the compiler
+        if "nested" in flags:
+            # ... also when f is a function nested in a function of the class
+            return ("class K:\n    __hid = 40\n    def make():\n" + "\n".join("        " + ln for ln in fn)
+                    + "\n        return f\nf = K.make()\n")
         return "class K:\n    __hid = 40\n" + "\n".join("    " + ln for ln in fn) + "\nf = K.f\n"
     if "closure" in flags:
         src = "def make(c):\n" + "\n".join("    " + ln for ln in fn) + "\n" + share + "    return f\nf = make(10)\n"
